@@ -4,9 +4,10 @@ Verdict logic
   C03  primitive and field operations: the Impl model of `nextField`/`readInt`/`readString` equals the
        RFC specification step (`Spec.step`, theorem C03.next_eq_step), so a difference between model and
        implementation there is an input on which the implementation departs from RFC 7541.
-       frame operations (the `previousHeaderBytes` loop of handleHeaderFrame): the model mirrors the code
-       including its known defects; the oracle is `Spec.decodeBlock` on the reassembled block, printed by
-       the driver after ` ;; ` on the frame that carries END_HEADERS.
+       frame operations (the `previousHeaderBytes` loop of handleHeaderFrame): the model mirrors the code;
+       the oracle is `Spec.decodeBlock` on the reassembled block, printed by the driver after ` ;; ` on the
+       frame that carries END_HEADERS (theorem C03.split_invariance says the two agree on every block and
+       every cut, so a difference is a broken correspondence AND a violation of the property).
   C04  correspondence of `AppendHeader`/`SetMaxTableSize`/`appendInt`/`appendString` with the model; the
        oracle decodes the octets the IMPLEMENTATION emitted with the Lean Spec decoder (`hpack.ref` ops, a
        second pass through the driver) and checks fields, table synchronisation, limits, announcements,
@@ -59,39 +60,42 @@ def known_classes(ctx):
 
 
 # ------------------------------------------------------------------ C03 block monitor
-F04 = "size-update-then-cut-before-first-field-ends"
-F05 = "frame-of-size-updates-only"
+# shapes of the repaired findings F04/F05: the generators must keep producing them (coverage, checked in run_c03)
+CUT_BEHIND_UPDATE = "frame-ends-behind-size-update"
+CUT_IN_UPDATE = "cut-inside-opening-size-update"
+CUT_IN_FIRST_FIELD = "cut-inside-first-field-behind-size-update"
+UPDATES_ONLY = "block-of-size-updates-only"
 
 
-def block_class(frames, lay):
-    """known-finding class of a block from its canonical shape: frame payload lengths and the layout the
-    Spec printed (end offsets of the leading size updates '/' end offset of the first field)."""
+def block_shapes(frames, lay):
+    """how the frames of a block cut its opening: frame payload lengths against the layout the Spec printed
+    (end offsets of the leading size updates '/' end offset of the first field)."""
     ups, first = lay.split("/")
     ups = [int(x) for x in ups.split(".") if x]
     first = int(first)
+    out = set()
     if not ups:
-        return None
-    ends, pos = [], 0
-    for n in frames:
+        return out
+    total = sum(frames)
+    if total == ups[-1]:
+        out.add(UPDATES_ONLY)
+    pos = 0
+    for n in frames[:-1]:
         pos += n
-        ends.append(pos)
-    cls = None
-    for e in ends:
-        if e in ups:
-            # a frame (or the block) ends right after complete size updates: phantom field
-            return F05 if cls is None else cls
-        if e < first:
-            # cut inside a size update or inside the field that follows them
-            return F04
-        break
-    return cls
+        if pos in ups:
+            out.add(CUT_BEHIND_UPDATE)
+        elif pos < ups[-1]:
+            out.add(CUT_IN_UPDATE)
+        elif pos < first:
+            out.add(CUT_IN_FIRST_FIELD)
+    return out
 
 
 def monitor_blocks(ctx, ops, impl, model, spec, report=True):
-    """returns (violations, exempt_lines, stats). exempt_lines: op indices inside a known-finding class."""
+    """returns (violations, stats)."""
     cur = {}      # ctx name -> block under construction
     hist = collections.defaultdict(list)   # ctx name -> op lines since `new`
-    viol, exempt, stats = [], set(), collections.Counter()
+    viol, stats = [], collections.Counter()
     for i, o in enumerate(ops):
         f = o.split(" ")
         if f[0] != "hpack.dec" or len(f) < 3:
@@ -141,16 +145,13 @@ def monitor_blocks(ctx, ops, impl, model, spec, report=True):
                 what = "dynamic table after the block differs from RFC 7541"
             elif b["last"].get("carry") != "0":
                 what = "octets left over after END_HEADERS"
-            cls = block_class(b["frames"], s["lay"])
-            if cls:
-                stats["blocks-in-" + cls] += 1
-                exempt.update(b["idx"])
+            for shape in block_shapes(b["frames"], s["lay"]):
+                stats["blocks-" + shape] += 1
         if what is None:
             continue
-        cls = block_class(b["frames"], kvs(sp)["lay"]) if sp != "spec=err" else None
-        v = dict(kind="block-decoding", what=what, cls=cls, ops=list(hist[c]), impl=[impl[j] for j in b["idx"]], spec=sp)
+        v = dict(kind="block-decoding", what=what, ops=list(hist[c]), impl=[impl[j] for j in b["idx"]], spec=sp)
         viol.append(v)
-    return viol, exempt, stats
+    return viol, stats
 
 
 def c03_field_kind(o):
@@ -164,38 +165,14 @@ def c03_field_kind(o):
 
 def run_c03(ctx):
     covs = {}
-    known = known_classes(ctx)
-    still = set()
-    # known findings: replay the witnesses
-    for k in ctx.known:
-        path = os.path.join(ctx.root, k["witness"])
-        if not os.path.exists(path):
-            ctx.broken.append(dict(what="witness file of known finding %s missing" % k["id"], detail=path))
-            continue
-        wops = [l.rstrip("\n") for l in open(path) if l.strip()]
-        o, a, m = ctx.gen_run_compare(ctx.pid, "known_" + k["id"], ctx.tier, ctx.seed, ctx.log, extra_ops=wops)
-        mm, sp = split_model(m)
-        viol, _, _ = monitor_blocks(ctx, o, a, mm, sp)
-        if any(v["cls"] == k["cls"] for v in viol):
-            still.add(k["cls"])
-            ctx.known_lines.append("%s %s" % (k["id"], k["text"]))
-
     ops, impl, modelraw = ctx.gen_run_compare(ctx.pid, "hpackdec", ctx.tier, ctx.seed, ctx.log)
     model, spec = split_model(modelraw)
-    viol, exempt, stats = monitor_blocks(ctx, ops, impl, model, spec)
-    # correspondence; inside a known class the implementation may follow the model or the Spec
-    model_cmp = list(model)
-    bviol = []
-    for v in viol:
-        if v["cls"] in known and v["cls"] in still:
-            continue
-        bviol.append(v)
-    bad_block_lines = set()
-    for i in exempt:
-        if impl[i] != model[i]:
-            model_cmp[i] = impl[i]     # judged by the block monitor instead
-            bad_block_lines.add(i)
-    cov, diffs = props.compare(ctx, "hpackdec", ops, impl, model_cmp)
+    bviol, stats = monitor_blocks(ctx, ops, impl, model, spec)
+    for shape in (CUT_BEHIND_UPDATE, CUT_IN_UPDATE, CUT_IN_FIRST_FIELD, UPDATES_ONLY):
+        if not stats.get("blocks-" + shape):
+            ctx.broken.append(dict(what="the generator produced no header block of the shape '%s' (repaired findings F04/F05)" % shape,
+                                   detail=dict(stats)))
+    cov, diffs = props.compare(ctx, "hpackdec", ops, impl, model)
     cov["block_monitor"] = dict(stats)
     # a difference on a primitive or field operation is a departure from the RFC step (next_eq_step)
     hist = collections.defaultdict(list)
@@ -228,7 +205,10 @@ def run_c03(ctx):
                    "every truncation, zero-padded forms to 12 digits, the 64-bit boundary; strings: raw/Huffman at boundary "
                    "lengths, truncations, bit flips; fields: every first octet with five tails, value length equal to the first "
                    "octet, every prefix of sample fields, index boundaries, size updates inside/above the limit and after a "
-                   "field; seeded histories of blocks (shadow table keeps indices valid) delivered as frames cut at random "
+                   "field; blocks opening with 1-3 size updates (and blocks of size updates only) after a block that filled the "
+                   "table: whole, cut in two at every octet, in three at every pair of octets up to the end of the first field, "
+                   "with empty frames, truncated (the shapes of the repaired F04/F05, same for every seed; their presence is "
+                   "checked); seeded histories of blocks (shadow table keeps indices valid) delivered as frames cut at random "
                    "octets / at every octet, or as nextField calls with a reused HeaderField. distinct_nontrivial = distinct op lines")
     cov["exhaustive"] = False
     covs["hpackdec"] = cov
@@ -270,6 +250,24 @@ def run_c03(ctx):
                 dead.add(c)
         covs["hpackref"] = dict(evaluations=len(o2), distinct_nontrivial=len(set(o2)), histogram={}, disagreements=dis, samples=[])
     return props.merge_cov(covs)
+
+
+def replay_c03(ctx, path):
+    """--replay: the ops of a replay / witness file through implementation, model and Spec; frame operations are
+    judged by the block monitor (the model line carries the Spec's verdict after ' ;; ')"""
+    import json
+    if path.endswith(".json"):
+        ops = json.load(open(path)).get("violation", {}).get("ops") or []
+    else:
+        ops = [l.rstrip("\n") for l in open(path) if l.strip()]
+    ops2, impl, modelraw = ctx.gen_run_compare(ctx.pid, "replay", ctx.tier, ctx.seed, ctx.log, extra_ops=ops)
+    model, spec = split_model(modelraw)
+    for o, a, m, sp in zip(ops2, impl, model, spec):
+        print("%s\n  impl : %s\n  model: %s%s" % (o, a, m, "" if sp is None else "\n  rfc  : " + sp))
+    viol, _ = monitor_blocks(ctx, ops2, impl, model, spec)
+    ctx.violations.extend(viol)
+    cov, diffs = props.compare(ctx, "replay", ops2, impl, model)
+    return cov
 
 
 # ------------------------------------------------------------------ C04
@@ -453,7 +451,7 @@ def c04_pass(ctx, area, extra_ops, quiet=False):
 
 
 def register(PROPS):
-    PROPS["C03"] = dict(module="H2.Props.C03", run=run_c03, assumptions=[
+    PROPS["C03"] = dict(module="H2.Props.C03", run=run_c03, replay=replay_c03, assumptions=[
         "nextField/readInt/readString agree with the Lean model on every generated operation; the loop of handleHeaderFrame is "
         "exercised through a transcription in the harness (harness/hpack.go headerFrame), not through serverConn itself",
         "table sizes stay below 2^32 (uint32 arithmetic of DynamicSize is not modelled)"])
